@@ -1,1 +1,217 @@
-/- C07: property theorems (not built yet). -/
+/-
+  C07 — Evaluations on different threads are isolated from each other.
+
+  Statement (properties.jsonl): "Evaluating different compiled workbooks concurrently on different threads gives each
+  thread exactly the results it gets when run alone, for every interleaving of the two evaluations - including
+  iterative evaluations with different iteration/tolerance settings and array-formula evaluations. Any public
+  operation (load, evaluate, set_value, trim_graph) works on a thread that has never used the library before."
+
+  Model: Pycel/Model/Threads.lean.  A thread runs one workload on its own compiler; a workload is the sequence of
+  operations it performs on the state pycel keeps OUTSIDE the compiler object (tracker namespace, array-context
+  stack, `_Cell.ctr`, FUNC_META['name_space']).  WHERE each of these lives is the table `codePlacement`, measured on
+  the live code by harness/tablegen/c07.py (Generated/Threads.lean): the theorems marked [table] are re-proved
+  against it on every run, so moving the tracker or the context stack out of `threading.local`, or dropping an
+  attribute from the lazy `ns` initialisation, makes them fail to check.
+
+  What the model cannot exhibit (named in the evidence): a preemption between two bytecodes of one tracker/context
+  method (steps are whole API calls; cell evaluation is the scheduling granularity of the correspondence run),
+  numpy's own threads, and the GIL.  `_Cell.ctr += 1` is one step here although it is three bytecodes.
+-/
+import Pycel.Lemmas.Threads
+namespace Pycel.Threads
+
+/-! ## [table] what the live code keeps per thread -/
+
+/-- [table] the tracker namespace and the array-context stack of the live code are `threading.local` -/
+theorem C07_code_isolating : Isolating codePlacement := by decide
+
+/-- [table] the lazy `ns` property of the live tracker creates every attribute its API reads
+    (on the pinned tree `iterations`/`tolerance` were missing: `C07_fresh_thread_counterexample`) -/
+theorem C07_code_lazy_complete : codePlacement.lazy.Complete := by decide
+
+/-- [table] every module-level / class-level mutable of the pycel modules that a multi-compiler workload was
+    measured to write is one the model accounts for (`Shared.metaNs`, `Shared.ctr`): nothing else is shared.
+    (`star_args` is filled at import time only; the tracker / context singletons keep nothing on the instance.) -/
+theorem C07_shared_enumeration :
+    ∀ x ∈ Gen.Threads.sharedWritten, x ∈ ["FUNC_META.name_space", "pycel.excelcompiler._Cell.ctr"] := by decide
+
+/-! ## frame -/
+
+/-- "gives each thread exactly the results it gets when run alone": a step of thread `t` leaves the locals that
+    every other thread `u` sees, and `u`'s compiler/workload state, unchanged. -/
+theorem C07_frame (P : Placement) (hP : Isolating P) (t u : Tid) (h : u ≠ t) (g : Global) :
+    view P (step P t g) u = view P g u ∧ (step P t g).threads u = g.threads u := by
+  rw [view_isolating P hP, view_isolating P hP]
+  exact ⟨step_locals_other P t u g h, step_threads_other P t u g h⟩
+
+/-- a step of `t` is a function of `t`'s own locals and compiler state: two global states that agree on `t`'s
+    projection agree on it after the step, whatever the other threads, compilers and the shared store hold. -/
+theorem C07_step_local (P : Placement) (hP : Isolating P) (t : Tid) (g1 g2 : Global)
+    (h : proj g1 t = proj g2 t) (hs : Safe P (g1.threads t).prog) :
+    proj (step P t g1) t = proj (step P t g2) t :=
+  step_local P hP t g1 g2 h hs
+
+/-- [table] the frame property for the live placement -/
+theorem C07_frame_code (t u : Tid) (h : u ≠ t) (g : Global) :
+    view codePlacement (step codePlacement t g) u = view codePlacement g u ∧
+    (step codePlacement t g).threads u = g.threads u :=
+  C07_frame codePlacement C07_code_isolating t u h g
+
+/-! ## isolation under every interleaving -/
+
+/-- "for every interleaving of the two evaluations": for EVERY schedule `σ` (any number of threads, any
+    interleaving of their steps, from any initial state — warmed-up or fresh locals), what thread `t` observes
+    (its locals, its observations = pass-loop exits, needs_calc answers, tolerances, array targets, its remaining
+    program, whether it failed) equals its solo run of the same number of steps. -/
+theorem C07_isolation (P : Placement) (hP : Isolating P) (t : Tid) (σ : List Tid) (g : Global)
+    (hs : Safe P (g.threads t).prog) :
+    proj (run P σ g) t = proj (runSolo P t (σ.count t) g) t := by
+  induction σ generalizing g with
+  | nil => rfl
+  | cons u σ ih =>
+    by_cases hu : u = t
+    · subst hu
+      simp only [run, List.count_cons_self, runSolo]
+      exact ih _ (step_safe P u g hs)
+    · have hne : (u == t) = false := by simpa using hu
+      simp only [run, List.count_cons, hne, Bool.false_eq_true, ↓reduceIte, Nat.add_zero]
+      have hth : (step P u g).threads t = g.threads t := step_threads_other P u t g (Ne.symm hu)
+      rw [ih (step P u g) (hth ▸ hs)]
+      exact runSolo_congr P hP t _ _ _ (proj_step_other P u t g (Ne.symm hu)) (hth ▸ hs)
+
+/-- [table] isolation for the live placement, for the workloads the statement names (iterative, array-formula,
+    plain): their programs never read FUNC_META['name_space'] at call time (only CELL and INDEX over a reference
+    do — see `C07_shared_meta_counterexample`). -/
+theorem C07_isolation_code (t : Tid) (σ : List Tid) (g : Global) (hs : ∀ f, Op.mread f ∉ (g.threads t).prog) :
+    proj (run codePlacement σ g) t = proj (runSolo codePlacement t (σ.count t) g) t :=
+  C07_isolation codePlacement C07_code_isolating t σ g (Or.inr hs)
+
+/-- isolation for the placement the property asks for, with no side condition on the programs -/
+theorem C07_isolation_prop (t : Tid) (σ : List Tid) (g : Global) :
+    proj (run propPlacement σ g) t = proj (runSolo propPlacement t (σ.count t) g) t :=
+  C07_isolation propPlacement (by decide) t σ g (Or.inl rfl)
+
+/-- two threads, as in the statement: both projections at once -/
+theorem C07_isolation_two (P : Placement) (hP : Isolating P) (a b : Tid) (σ : List Tid) (g : Global)
+    (ha : Safe P (g.threads a).prog) (hb : Safe P (g.threads b).prog) :
+    proj (run P σ g) a = proj (runSolo P a (σ.count a) g) a ∧
+    proj (run P σ g) b = proj (runSolo P b (σ.count b) g) b :=
+  ⟨C07_isolation P hP a σ g ha, C07_isolation P hP b σ g hb⟩
+
+/-! ## the theorems are about the placement: with module-level state they are false -/
+
+def tl (i : Nat) (d : Nat) : Tol := ((i : Int), d)
+
+/-- iterative workload A (5 iterations, tolerance 1/1000) and B (3 iterations, tolerance 1/2) -/
+def progA : List Op := [.call 5 (tl 1 1000), .inc, .yp, .calced 0, .tol, .wip 0, .done, .fin]
+def progB : List Op := [.call 3 (tl 1 2), .inc, .yp, .calced 1, .tol, .done, .fin]
+def progs2 (a b : List Op) : Tid → List Op := fun t => if t = 0 then a else if t = 1 then b else []
+
+/-- B runs to completion inside A's first cell evaluation -/
+def sigma1 : List Tid := [0, 0, 0] ++ List.replicate 7 1 ++ List.replicate 5 0
+
+/-- non-vacuity: under the live placement the interleaved run of A equals its solo run, and A is not trivial
+    (it reads its own tolerance 1/1000 and needs another pass) -/
+example : (proj (run codePlacement sigma1 (initGlobal (progs2 progA progB))) 0).obs =
+    [.tol (1, 1000), .bool false, .fin (some 1) (some 5) (some (1, 1000)) (some 1) (some 1) none] := by decide
+
+/-- if the tracker namespace were one module-level object (the 1.0b20 bug), the same schedule makes A read B's
+    tolerance and iteration count: isolation is not provable for that placement. -/
+theorem C07_global_tracker_counterexample :
+    let P := { codePlacement with tracker := Place.moduleGlobal }
+    let g := initGlobal (progs2 progA progB)
+    (proj (run P sigma1 g) 0).obs ≠ (proj (runSolo P 0 (sigma1.count 0) g) 0).obs := by decide
+
+/-- array-formula workloads: A evaluates a CSE range B1:B3, B a CSE range D1:D2, nested one level -/
+def progC : List Op := [.ctxCall "B1:B3", .enter, .yp, .top, .ctxCall "N", .enter, .top, .exit, .top, .exit, .fin]
+def progD : List Op := [.ctxCall "D1:D2", .enter, .yp, .top, .exit, .fin]
+def sigma2 : List Tid := [0, 0, 0, 1, 1, 1, 0, 0, 0, 1, 1, 1, 0, 0, 0, 0, 0]
+
+example : (proj (run codePlacement sigma2 (initGlobal (progs2 progC progD))) 0).obs =
+    [.addr "B1:B3", .addr "N", .addr "B1:B3", .fin none none none none none (some 1)] := by decide
+
+/-- if the context stack were one module-level list (the 1.0b19 bug), A's `fit_to_range` sees B's target range -/
+theorem C07_global_ctx_counterexample :
+    let P := { codePlacement with ctx := Place.moduleGlobal }
+    let g := initGlobal (progs2 progC progD)
+    (proj (run P sigma2 g) 0).obs ≠ (proj (runSolo P 0 (sigma2.count 0) g) 0).obs := by decide
+
+/-- [table] FUNC_META['name_space'] IS module-level in the live code (function_helpers.py:90) and CELL / INDEX read
+    it at call time: a workload that calls CELL over a reference after the other compiler has loaded CELL reads
+    through the other compiler.  Full isolation (no side condition on the programs) is therefore false for the live
+    placement; it is recorded as known finding `funcmeta.name_space.shared`. -/
+theorem C07_shared_meta_counterexample :
+    let g := initGlobal (progs2 [.bind "cell", .mread "cell", .yp, .mread "cell"] [.bind "cell"])
+    let σ : List Tid := [0, 0, 0, 1, 0]
+    (proj (run codePlacement σ g) 0).obs = [.comp (some 0), .comp (some 1)] ∧
+    (proj (runSolo codePlacement 0 (σ.count 0) g) 0).obs = [.comp (some 0), .comp (some 0)] := by decide
+
+/-- [table] the cell-id counter is shared as well; ids are handed out in schedule order, so they are NOT part of
+    what a thread gets "when run alone" (nothing in an evaluation reads them) -/
+theorem C07_ids_depend_on_schedule :
+    let g := initGlobal (progs2 [.nextId, .nextId] [.nextId])
+    ((run codePlacement [0, 1, 0] g).threads 0).ids = [1, 3] ∧
+    ((runSolo codePlacement 0 2 g).threads 0).ids = [1, 2] := by decide
+
+/-! ## fresh threads -/
+
+/-- "Any public operation (load, evaluate, set_value, trim_graph) works on a thread that has never used the library
+    before": started from DEFAULT thread-locals (no attribute exists yet), a thread running any operation sequence
+    whose `with in_array_formula_context` blocks are properly nested (every public operation is one) never reads an
+    attribute that has not been created — it cannot raise AttributeError/IndexError out of the bookkeeping, after
+    any number of its own steps. -/
+theorem C07_fresh_thread (P : Placement) (hP : Isolating P) (hL : P.lazy.Complete) (t : Tid) (g : Global)
+    (hfresh : g.locals t = Locals.default) (hrun : (g.threads t).crashed = false)
+    (hb : Balanced (g.threads t).prog) (n : Nat) :
+    ((runSolo P t n g).threads t).crashed = false := by
+  have hinv : Inv g t := by
+    refine ⟨hrun, ?_, ?_, ?_⟩
+    · rw [hfresh]; intro h; cases h
+    · rw [hfresh]; intro h; cases h
+    · rw [hfresh]
+      have := balanced_stackOk _ hb [] 1 (Nat.le_refl 1) rfl
+      simpa [Locals.default, Ctx.depth] using this
+  exact (runSolo_inv P hP hL t n g hinv).1
+
+/-- the same on a fresh thread running concurrently with anything else, under every schedule -/
+theorem C07_fresh_thread_interleaved (P : Placement) (hP : Isolating P) (hL : P.lazy.Complete) (t : Tid)
+    (g : Global) (hfresh : g.locals t = Locals.default) (hrun : (g.threads t).crashed = false)
+    (hb : Balanced (g.threads t).prog) (hs : Safe P (g.threads t).prog) (σ : List Tid) :
+    ((run P σ g).threads t).crashed = false := by
+  have h := C07_isolation P hP t σ g hs
+  have h2 := C07_fresh_thread P hP hL t g hfresh hrun hb (σ.count t)
+  have := congrArg Proj.crashed h
+  simp only [proj] at this
+  rw [this, h2]
+
+/-- [table] for the live code -/
+theorem C07_fresh_thread_code (t : Tid) (g : Global)
+    (hfresh : g.locals t = Locals.default) (hrun : (g.threads t).crashed = false)
+    (hb : Balanced (g.threads t).prog) (n : Nat) :
+    ((runSolo codePlacement t n g).threads t).crashed = false :=
+  C07_fresh_thread codePlacement C07_code_isolating C07_code_lazy_complete t g hfresh hrun hb n
+
+/-- the lazy table of the pinned tree (before `fix:`): `ns` created only todo/computed/iteration_number -/
+def pinnedLazy : LazyTable := { attrs := ["todo", "computed", "iteration_number"], iterations := none, tolerance := none }
+
+/-- with that table `set_value` on a cycle cell (`_CycleCell.value` setter: calced, tolerance, wip) — likewise the
+    cell construction of from_file / trim_graph — raises AttributeError on a fresh thread: the witness of the
+    repaired defect. -/
+theorem C07_fresh_thread_counterexample :
+    let P := { codePlacement with lazy := pinnedLazy }
+    let g := initGlobal (progs2 [.calced 0, .tol, .wip 0] [])
+    ((runSolo P 0 2 g).threads 0).obs = [.raised "AttributeError"] ∧ ((runSolo P 0 2 g).threads 0).crashed = true := by
+  decide
+
+/-- non-vacuity of `C07_fresh_thread`: a nested, balanced public-operation sequence -/
+example : Balanced [.call 5 (1, 1000), .inc, .ctxCall "N", .enter, .yp, .isCalced 0, .top, .exit, .calced 0, .tol, .done] := by
+  have h1 : Balanced [Op.yp, .isCalced 0, .top] :=
+    .append [_] [_, _] (.atom _ (by decide) (by decide))
+      (.append [_] [_] (.atom _ (by decide) (by decide)) (.atom _ (by decide) (by decide)))
+  have h2 := Balanced.block _ h1
+  have a : ∀ o : Op, o ≠ .enter → o ≠ .exit → Balanced [o] := fun o x y => .atom o x y
+  exact .append [_] _ (a _ (by decide) (by decide)) <| .append [_] _ (a _ (by decide) (by decide)) <|
+    .append [_] _ (a _ (by decide) (by decide)) <| .append _ [_, _, _] h2 <|
+    .append [_] [_, _] (a _ (by decide) (by decide)) <| .append [_] [_] (a _ (by decide) (by decide)) (a _ (by decide) (by decide))
+
+end Pycel.Threads
